@@ -232,7 +232,7 @@ def canon_entry(e):
 
 def shard(ctx):
     rng = ctx.rng("c09")
-    o = gen.Opts(types=True, calls=True, msgs=False, max_rules=4, max_lines=3, default=False)
+    o = gen.Opts(types=True, calls=True, msgs=False, max_rules=4, max_lines=3, default=False, interp=True)
     n = 500 if ctx.quick else 18000
     for t in range(n):
         doc = gen.gen_doc(rng)
